@@ -6,6 +6,7 @@ package verifsim
 
 import (
 	"bytes"
+	"context"
 	"crypto/aes"
 	"crypto/cipher"
 	"crypto/hmac"
@@ -267,6 +268,35 @@ func c10Run13(rc *RunCtx, p *C10Params, cfg DataCfg) {
 		}
 	}
 	s.Run(func() bool { return len(rdS.Got) >= len(p.Sizes) && len(rdC.Got) >= len(p.Sizes) }, 5*time.Second)
+	// steer the session to later key generations: the successor secrets are part of what is decoded
+	for round := 0; round < p.Forge%3; round++ {
+		for _, ep := range []string{"c", "s"} {
+			var done bool
+			var uerr error
+			conn := pair.ConnOf(ep)
+			s.Go(ep+"-update", func() {
+				ctx, cancel := context.WithTimeout(context.Background(), time.Minute)
+				uerr = conn.UpdateKeys(ctx, dtls.KeyUpdateOptions{RequestPeerUpdate: round%2 == 1})
+				cancel()
+				done = true
+			})
+			s.Run(func() bool { return done }, 2*time.Minute)
+			if !done || uerr != nil {
+				rc.Note("update-keys-failed", fmt.Sprint(uerr))
+
+				return
+			}
+			pl := Payload(ep, 2, 100+round, 40+round)
+			if err := pair.WriteSync(ep, pl, 10*time.Second); err != nil {
+				rc.Violate("write-failed", "%s write after key update: %v", ep, err)
+
+				return
+			}
+			wrote[ep] = append(wrote[ep], pl)
+			s.Probe("key-update-before-decoding")
+		}
+	}
+	s.Run(func() bool { return false }, time.Second)
 	cst, _ := pair.Client.ConnectionState()
 	suite := uint16(cst.CipherSuiteID)
 	cw, cr := dtls.VerifTrafficSecrets(pair.Client)
@@ -285,10 +315,21 @@ func c10Run13(rc *RunCtx, p *C10Params, cfg DataCfg) {
 			return
 		}
 	}
+	for name, secs := range map[string]map[uint16][]byte{"client": cw, "server": sw} {
+		for e, sec := range secs {
+			if nx, ok := secs[e+1]; ok && e >= 3 && !bytes.Equal(nx, NextSecret13(suite, sec)) {
+				rc.Violate("successor-law", "%s write secret of epoch %d is not HKDF-Expand-Label(secret of epoch %d, \"traffic upd\", \"\", Hash.length)", name, e+1, e)
+
+				return
+			}
+		}
+	}
 	dec := map[string]*Decoder13{"c": NewDecoder13(suite, cw), "s": NewDecoder13(suite, sw)}
 	cidToS, cidToC := len(cfg.S.CIDOf()), len(cfg.C.CIDOf())
 	idx := map[string]int{}
 	highest := map[string]uint64{}
+	highestTop := map[string]uint64{} // highest sequence number seen in the sender's newest epoch
+	topEpoch := map[string]uint16{}
 	opened := 0
 	for _, em := range n.Emits {
 		cid := cidToS
@@ -318,6 +359,11 @@ func c10Run13(rc *RunCtx, p *C10Params, cfg DataCfg) {
 			if e >= 3 && sq > highest[em.Ep] {
 				highest[em.Ep] = sq
 			}
+			if e > topEpoch[em.Ep] {
+				topEpoch[em.Ep], highestTop[em.Ep] = e, sq
+			} else if e == topEpoch[em.Ep] && sq > highestTop[em.Ep] {
+				highestTop[em.Ep] = sq
+			}
 			if ct == CTAppData {
 				k := idx[em.Ep]
 				if k >= len(wrote[em.Ep]) || !bytes.Equal(plain, wrote[em.Ep][k]) {
@@ -346,13 +392,19 @@ func c10Run13(rc *RunCtx, p *C10Params, cfg DataCfg) {
 				secs, rd, cid = sw, rdC, cfg.C.CIDOf()
 				fromAddr, toAddr = pair.SAddr, pair.CAddr
 			}
-			sec, ok := secs[3]
+			top := uint16(3)
+			for e := range secs {
+				if e > top {
+					top = e
+				}
+			}
+			sec, ok := secs[top]
 			if !ok {
 				continue
 			}
 			keys, _ := NewKeys13(suite, sec)
 			pl := Payload("ref-"+from, 7, k, p.Sizes[k%len(p.Sizes)])
-			raw := keys.Seal13(3, highest[from]+uint64(5+k), cid, CTAppData, pl, k*2)
+			raw := keys.Seal13(top, highestTop[from]+uint64(5+k), cid, CTAppData, pl, k*2)
 			before := len(rd.Got)
 			n.InjectNow(fromAddr, toAddr, raw)
 			s.Settle()
